@@ -178,3 +178,24 @@ def matcher(cmd):
         case str() as text:
             return text
     return None
+
+
+def nested_comp(rows):
+    """an assignment expression in the inner comprehension of a nested comprehension binds in the function (PEP 572)"""
+    flat = [[(last := cell) for cell in row] for row in rows]
+    {key: [(seen_only := cell) for cell in row] for key, row in enumerate(rows)}
+    return last, flat
+
+
+def make_scaled():
+    Factor = int
+    unit = 1
+
+    def scale(v):
+        """a closure variable that only occurs in the annotation of a local, next to one that is read"""
+        out: Factor = v * 2
+        return out + unit
+    return scale
+
+
+scale = make_scaled()
